@@ -4,16 +4,28 @@
     action.eval <ctx>* | <tok>*               -> ok <0|1> <well-hex,…|-> | err | noparse
     action.run <max_run> <min_wait> <start> <t>:<0|1> …   -> <run times,…|-> <count>
   tokens: N:<text-hex>:<bits>  E:<text-hex>:<FuncType code>  L  R  A  O  C:<gt|ge|lt|le|eq|ne>
-  ctx:    WF=<code of FuncType::well>  MF=<code of FuncType::time_month>
+          T:<text-hex>:<strtod bits>:<FuncType code>   raw token, classified by the MODEL (`classify`)
+  ctx:    WF=<code of FuncType::well>  MF=<code of FuncType::time_month>  UD=<bits of udq_undefined>
           K:<key-hex>=<bits>           (everything `Context::get(key)` knows)
-          P:<func-hex>:<pattern-hex>:<well-hex,…|->   (wells of `func` matching the pattern)
+          P:<func-hex>:<pattern-hex>:<well-hex,…|->   (wells of `func` matching the pattern; old form)
+          W:<func-hex>:<well-hex,…|->  (`SummaryState::wells(func)`; the MODEL matches the pattern)
+          L:<name-hex>:<well-hex,…|->  (one WLIST, in `std::map` order)
+    action.classify <text-hex>                -> <token class>
+    action.dequote <text-hex>                 -> <text-hex> | err
+    action.glob <pattern-hex> <name-hex>      -> 0 | 1
+    action.sim <ev>*                          -> <name>.<id>@<t>,… | -  ;  <name>.<id>=<count>:<last> …
+       ev:  D:<name-hex>:<max_run>:<min_wait>:<start>   (`Actions::add`)
+            S:<t>:<name-hex,…|->                        (report step: the actions whose condition holds)
+            R:<name-hex>:<count>:<last>                 (`State::load_rst` of one action)
 -/
 import OpmVerif.Model.Action
+import OpmVerif.Model.ActionTok
 -- driver: prefix=action handler=OpmVerif.Act.handle
 
 namespace OpmVerif.Act
 
 def hexStr (s : String) : Option String :=
+  if s = "-" then some "" else
   (ofHex s).map fun bs => String.ofList (bs.map fun b => Char.ofNat b.toNat)
 def strHex (s : String) : String := if s.isEmpty then "-" else toHex (s.toList.map fun c => UInt8.ofNat c.toNat)
 def hexNat (s : String) : Option Nat :=
@@ -32,9 +44,32 @@ def parseOp : String → Option CmpOp
 def opCode : CmpOp → Nat
   | .gt => 4 | .ge => 5 | .lt => 6 | .le => 7 | .eq => 8 | .ne => 9
 
+/-- a raw token: the MODEL classifies the text (`Parser::get_type`); `bv` = what `strtod` returns,
+`fv` = `get_func` code -/
+def mkTok (text : String) (bv fv : Nat) : Tok :=
+  let ty := classify text.toList
+  { ty := ty,
+    text := (match ty with
+      | .lp => "(" | .rp => ")" | .and => "AND" | .or => "OR"
+      | .cmp o => (match o with | .gt => "gt" | .ge => "ge" | .lt => "lt" | .le => "le" | .eq => "eq" | .ne => "ne")
+      | _ => text),
+    bits := (match ty with | .number => bv.toUInt64 | _ => 0),
+    func := (match ty with | .expr => fv | _ => 0) }
+
+/-- deck tokens: `dequote` first (inner `none` = unbalanced quote) -/
+def parseTokDq (s : String) : Option (Option Tok) :=
+  match s.splitOn ":" with
+  | ["T", t, b, f] => do
+    let text ← hexStr t
+    let bv ← hexNat b
+    let fv ← f.toNat?
+    pure ((dequote text.toList).map fun d => mkTok (String.ofList d) bv fv)
+  | _ => none
+
 def parseTok (s : String) : Option Tok :=
   match s.splitOn ":" with
   | ["N", t, b] => do pure { ty := .number, text := (← hexStr t), bits := (← hexNat b).toUInt64 }
+  | ["T", t, b, f] => do pure (mkTok (← hexStr t) (← hexNat b) (← f.toNat?))
   | ["E", t, f] => do pure { ty := .expr, text := (← hexStr t), func := (← f.toNat?) }
   | ["L"] => some { ty := .lp, text := "(" }
   | ["R"] => some { ty := .rp, text := ")" }
@@ -62,9 +97,13 @@ structure RawCtx where
   monthCode : Nat := 2
   keys : List (String × Float) := []
   pats : List ((String × String) × List String) := []
+  carrying : List (String × List String) := []
+  wlists : List (String × List String) := []
+  udqUndef : Float := 0.0
 
 def addItem (c : RawCtx) (item : String) : Option RawCtx :=
   if item.startsWith "WF=" then ((item.drop 3).toString.toNat?).map fun n => { c with wellCode := n }
+  else if item.startsWith "UD=" then (hexNat (item.drop 3).toString).map fun n => { c with udqUndef := Float.ofBits n.toUInt64 }
   else if item.startsWith "MF=" then ((item.drop 3).toString.toNat?).map fun n => { c with monthCode := n }
   else match item.splitOn ":" with
     | ["K", kv] =>
@@ -72,30 +111,60 @@ def addItem (c : RawCtx) (item : String) : Option RawCtx :=
       | [k, b] => do pure { c with keys := ((← hexStr k), Float.ofBits (← hexNat b).toUInt64) :: c.keys }
       | _ => none
     | ["P", f, p, ws] => do pure { c with pats := (((← hexStr f), (← hexStr p)), (← hexList ws)) :: c.pats }
+    | ["W", f, ws] => do pure { c with carrying := ((← hexStr f), (← hexList ws)) :: c.carrying }
+    | ["L", n, ws] => do pure { c with wlists := c.wlists ++ [((← hexStr n), (← hexList ws))] }
     | _ => none
 
 def hasStar (s : String) : Bool := s.toList.contains '*'
+
+/-- `WListManager::wells(pattern)`: the list of that name, else every list whose name (without the
+leading `*`) matches the pattern (without it), wells in first-seen order -/
+def wlistWells (wl : List (String × List String)) (pat : String) : List String :=
+  match wl.lookup pat with
+  | some ws => ws
+  | none =>
+    (wl.filter fun p => globMatch (pat.toList.drop 1) (p.1.toList.drop 1)).foldl
+      (fun acc p => p.2.foldl (fun a w => if a.contains w then a else a ++ [w]) acc) []
+
+/-- `is_udq` of SummaryState.cpp: `AU* BU* CU* FU* GU* RU* SU* WU*` -/
+def isUdq (k : String) : Bool :=
+  match k.toList with
+  | c :: 'U' :: _ => "WGFCRBSA".toList.contains c
+  | _ => false
+
+/-- `Context::get(key)`: own values and summary vectors (both in `keys`); an unknown UDQ key gives
+`SummaryState::udq_undefined`, any other unknown key throws -/
+def getKey (c : RawCtx) (k : String) : Option Float :=
+  match c.keys.lookup k with
+  | some v => some v
+  | none => if isUdq k then some c.udqUndef else none
 
 /-- `ASTNode::nodeValue` -/
 def nodeValue (c : RawCtx) : Leaf → Except Unit (Value Float)
   | .num b => .ok (.scalar (Float.ofBits b))
   | .expr f ft args =>
     match args with
-    | [] => match c.keys.lookup f with
+    | [] => match getKey c f with
       | some v => .ok (.scalar v)
       | none => .error ()
     | a :: more =>
       if more.isEmpty && hasStar a then
         if ft ≠ c.wellCode then .error ()
         else
-          match c.pats.lookup (f, a) with
+          let wsel : Option (List String) :=
+            match c.pats.lookup (f, a) with
+            | some ws => some ws
+            | none =>
+              -- `SummaryState::wells(var)` of an unknown vector is empty
+              some (getWellList (wlistWells c.wlists) ((c.carrying.lookup f).getD []) a)
+          match wsel with
           | none => .error ()
           | some ws =>
-            match ws.mapM fun w => (c.keys.lookup (f ++ ":" ++ w)).map fun v => (w, v) with
+            match ws.mapM fun w => (getKey c (f ++ ":" ++ w)).map fun v => (w, v) with
             | some l => .ok (.wells l)
             | none => .error ()
       else
-        match c.keys.lookup (f ++ ":" ++ ":".intercalate args) with
+        match getKey c (f ++ ":" ++ ":".intercalate args) with
         | none => .error ()
         | some v => if ft = c.wellCode then .ok (.wells [(a, v)]) else .ok (.scalar v)
 
@@ -129,6 +198,52 @@ def parseEvent (s : String) : Option (Int × Bool) :=
   | [t, c] => (t.toInt?).map fun ti => (ti, c = "1")
   | _ => none
 
+/-- events of `action.sim` -/
+inductive SimEv where
+  | define (name : String) (lim : Limits)
+  | step (t : Int) (trueNames : List String)
+  | rst (name : String) (count : Nat) (last : Int)
+
+def parseSimEv (s : String) : Option SimEv :=
+  match s.splitOn ":" with
+  | ["D", n, mr, mw, st] => do pure (.define (← hexStr n) ⟨(← mr.toNat?), (← mw.toInt?), (← st.toInt?)⟩)
+  | ["S", t, ns] => do pure (.step (← t.toInt?) (← hexList ns))
+  | ["R", n, c, l] => do pure (.rst (← hexStr n) (← c.toNat?) (← l.toInt?))
+  | _ => none
+
+/-- the state between report steps is kept as a finite table (newest entry first) and handed to
+`sim`/`simState` as the function it denotes: a compiled `AState` closure would re-run the whole
+history at every look-up -/
+def tblState (tbl : List (Key × RunState)) : AState := fun k => (tbl.lookup k).getD ⟨0, 0⟩
+
+/-- run the events; the step events go through `sim`/`simState` one report step at a time -/
+def simRun : List ActDef → List (Key × RunState) → List SimEv → List (Key × Int) →
+    List ActDef × List (Key × RunState) × List (Key × Int)
+  | acts, tbl, [], log => (acts, tbl, log)
+  | acts, tbl, .define n l :: r, log => simRun (addAction acts n l) tbl r log
+  | acts, tbl, .rst n c l :: r, log =>
+    match acts.find? (fun a => a.key.1 = n) with
+    | some a =>
+      let v := (if c > 0 then loadRst (tblState tbl) a.key c l else tblState tbl) a.key
+      simRun acts ((a.key, v) :: tbl) r log
+    | none => simRun acts tbl r log
+  | acts, tbl, .step t ns :: r, log =>
+    let ev : Int × (Key → Bool) := (t, fun k => ns.contains k.1)
+    let s := tblState tbl
+    let tbl' := acts.map (fun a => (a.key, (simState acts s [ev]) a.key)) ++ tbl
+    simRun acts tbl' r (log ++ sim acts s [ev])
+
+def simHandle (args : List String) : String :=
+  match args.mapM parseSimEv with
+  | none => "bad-op"
+  | some evs =>
+    let (acts, tbl, log) := simRun [] [] evs []
+    let s := tblState tbl
+    let showK (k : Key) : String := strHex k.1 ++ "." ++ toString k.2
+    (if log.isEmpty then "-" else ",".intercalate (log.map fun e => showK e.1 ++ "@" ++ toString e.2)) ++ " ;" ++
+      String.join (acts.map fun a => " " ++ showK a.key ++ "=" ++ toString (s a.key).count ++ ":" ++
+        (if (s a.key).count = 0 then "-" else toString (s a.key).last))
+
 def handle (op : String) (args : List String) : String :=
   match op with
   | "action.parse" =>
@@ -152,6 +267,49 @@ def handle (op : String) (args : List String) : String :=
         | .error _ => "err"
       | _ => "noparse"
     | _, _ => "bad-op"
+  | "action.deckeval" =>
+    let (ctxItems, toks) := splitBar args
+    match ctxItems.foldlM addItem ({} : RawCtx), toks.mapM parseTokDq with
+    | some rc, some ots =>
+      match ots.mapM id with
+      | none => "noparse"
+      | some ts =>
+        match parse ts with
+        | .empty => "ok 0 -"
+        | .tree c =>
+          match evalCond slt (leafEval rc) c with
+          | .ok r => showRes r
+          | .error _ => "err"
+        | _ => "noparse"
+    | _, _ => "bad-op"
+  | "action.classify" =>
+    match args with
+    | [t] =>
+      match hexStr t with
+      | some text =>
+        (match classify text.toList with
+         | .number => "number" | .expr => "expr" | .lp => "lp" | .rp => "rp" | .and => "and" | .or => "or"
+         | .cmp o => "cmp" ++ toString (opCode o))
+      | none => "bad-op"
+    | _ => "bad-op"
+  | "action.dequote" =>
+    match args with
+    | [t] =>
+      match hexStr t with
+      | some text =>
+        (match dequote text.toList with
+         | some r => strHex (String.ofList r)
+         | none => "err")
+      | none => "bad-op"
+    | _ => "bad-op"
+  | "action.glob" =>
+    match args with
+    | [p, n] =>
+      match hexStr p, hexStr n with
+      | some pt, some nm => if globMatch pt.toList nm.toList then "1" else "0"
+      | _, _ => "bad-op"
+    | _ => "bad-op"
+  | "action.sim" => simHandle args
   | "action.run" =>
     match args with
     | mr :: mw :: st :: evs =>
